@@ -81,6 +81,22 @@ def check_sizing(repo, rep):
             if out.kind != "return" or not (isinstance(out.value, R) and out.value.same(want)):
                 rep.violation(rid, f"risk_to_qty|{side}", f"risk_to_qty ({side}) = {out.value!r}, expected {want!r}")
             rep.instance(rid, f"risk_to_qty|{side}", {"value": repr(out.value)})
+    # ... and in the cell where risk_to_size caps the size at the capital (a stop tighter than the requested risk), and without fee
+    for side, fee_case, smp in (("long", "fee>0", {"cap": F(100), "r": F(50), "e": F(8), "sl": F(79, 10), "prec": F(3), "f": F(1, 1000)}),
+                                ("short", "fee>0", {"cap": F(100), "r": F(50), "e": F(8), "sl": F(81, 10), "prec": F(3), "f": F(1, 1000)}),
+                                ("long", "fee=0", {"cap": F(100), "r": F(50), "e": F(8), "sl": F(79, 10), "prec": F(3), "f": F(0)}),
+                                ("long-risk-limited", "fee=0", {"cap": F(10000), "r": F(1), "e": F(8), "sl": F(7), "prec": F(3), "f": F(0)})):
+        fee = A("f") if fee_case == "fee>0" else num(0)
+        outs = W.run_function(repo, UTILS, "risk_to_qty", lambda it: ([A("cap"), A("r"), A("e"), A("sl")], {"precision": A("prec"), "fee_rate": fee}),
+                              samples=[smp], nonneg=set(smp))
+        for out in outs:
+            T = TEN(A("prec"))
+            fee2 = (ONE - R.const(3) * fee)
+            size = A("cap") if "risk-limited" not in side else A("r") / R.const(100) * A("cap") / (A("e") - A("sl")) * A("e")
+            want = floor_of(size * fee2 * fee2 / A("e") * T) / T
+            if out.kind != "return" or not (isinstance(out.value, R) and out.value.same(want)):
+                rep.violation(rid, f"risk_to_qty|{side}|capped|{fee_case}", f"risk_to_qty ({side}, size capped at the capital, {fee_case}) = {out.value!r}, expected {want!r}")
+            rep.instance(rid, f"risk_to_qty|{side}|capped|{fee_case}", {"value": repr(out.value)})
     # limit_stop_loss and estimate_risk
     for typ in ("long", "short"):
         for case, smp in (("within", {"e": F(100), "s": F(97) if typ == "long" else F(103), "pct": F(5)}), ("limited", {"e": F(100), "s": F(80) if typ == "long" else F(120), "pct": F(5)})):
@@ -98,7 +114,81 @@ def check_sizing(repo, rep):
             if out.kind != "return" or not (isinstance(out.value, R) and out.value.same(want)):
                 rep.violation(rid, "estimate_risk", f"estimate_risk = {out.value!r}, expected {want!r}")
             rep.instance(rid, f"estimate_risk|{smp['e']}")
-    rep.floor(rid, 14)
+    rep.floor(rid, 18)
+
+
+def _ev(r, env):
+    """value of a normal form on a valuation of its atoms; floor / 10**p atoms are evaluated, not looked up"""
+    import math
+
+    def look(a):
+        if isinstance(a, Op):
+            if a.name == "floor":
+                return F(math.floor(_ev(a.args[0], env)))
+            if a.name == "pow":
+                b, e = (_ev(x, env) for x in a.args)
+                if e.denominator != 1:
+                    raise KeyError(a)
+                return F(b) ** int(e)
+            raise KeyError(a)
+        return env[a]
+    return r.evaluate(look) if isinstance(r, R) else F(r)
+
+
+def check_bounds(repo, rep):
+    """the two bounds themselves (not the formulas they were derived from): for every witness point of a grid that covers
+    both cells of risk_to_size (risk-limited / capped at the capital), both sides, fee 0 and > 0, the function is
+    interpreted on the path of that point and the returned expression is evaluated in exact arithmetic"""
+    rid = "C17-R6"
+    rep.rule(rid, "the quantity returned by size_to_qty / risk_to_qty costs at most the capital including the entry fee "
+                  "(qty * price * (1 + fee) <= capital) and risks at most the requested share (qty * |entry - stop| <= r% of "
+                  "capital): the expression returned on the path of each grid witness - both cells of the size cap, long and "
+                  "short, fee 0 and > 0 - is evaluated in exact rational arithmetic; a witness that breaks a bound is a "
+                  "counterexample")
+    n = 0
+    for cap, r, (e, sl), f, prec in itertools.product([F(100), F(10000)], [F(1, 2), F(1), F(5), F(50)],
+                                                        [(F(100), F(96)), (F(100), F(104)), (F(8), F(7)), (F(8), F(79, 10)), (F(3, 10), F(29, 100))],
+                                                        [F(0), F(4, 10000), F(1, 1000), F(1, 100)], [F(0), F(3)]):
+        smp = {"cap": cap, "r": r, "e": e, "sl": sl, "prec": prec, "f": f}
+        fee = A("f") if f != 0 else num(0)
+        outs = W.run_function(repo, UTILS, "risk_to_qty", lambda it: ([A("cap"), A("r"), A("e"), A("sl")], {"precision": A("prec"), "fee_rate": fee}),
+                              samples=[smp], nonneg=set(smp))
+        for out in outs:
+            if out.kind != "return" or not isinstance(out.value, R):
+                continue
+            try:
+                q = _ev(out.value, smp)
+            except (KeyError, ZeroDivisionError):
+                rep.undecided_item(f"risk_to_qty at {smp}: the returned expression has atoms outside the witness")
+                continue
+            n += 1
+            cost = q * e * (1 + f)
+            risk = q * abs(e - sl)
+            if cost > cap:
+                rep.violation(rid, "risk_to_qty|cost", f"risk_to_qty(capital={cap}, risk={r}%, entry={e}, stop={sl}, precision={prec}, fee_rate={f}) = {q} "
+                              f"(= {float(q)}): buying it at {e} costs {float(cost)} including the fee, more than the capital")
+            if risk > r / 100 * cap:
+                rep.violation(rid, "risk_to_qty|risk", f"risk_to_qty(capital={cap}, risk={r}%, entry={e}, stop={sl}, precision={prec}, fee_rate={f}) = {q}: "
+                              f"it risks {float(risk)}, more than {r}% of the capital")
+    for size, pr, f, prec in itertools.product([F(100), F(9999, 10)], [F(7), F(3, 10), F(100)], [F(0), F(1, 1000), F(1, 100)], [F(0), F(3)]):
+        smp = {"s": size, "p": pr, "prec": prec, "f": f}
+        fee = A("f") if f != 0 else num(0)
+        for out in W.run_function(repo, UTILS, "size_to_qty", lambda it: ([A("s"), A("p")], {"precision": A("prec"), "fee_rate": fee}), samples=[smp], nonneg=set(smp)):
+            if out.kind != "return" or not isinstance(out.value, R):
+                continue
+            try:
+                q = _ev(out.value, smp)
+            except (KeyError, ZeroDivisionError):
+                continue
+            n += 1
+            if q * pr * (1 + f) > size:
+                rep.violation(rid, "size_to_qty|cost", f"size_to_qty(size={size}, price={pr}, precision={prec}, fee_rate={f}) = {q}: it costs {float(q * pr * (1 + f))} including the fee, more than the size")
+            exact = size * (1 - 3 * f) / pr if f != 0 else size / pr
+            if not (0 <= exact - q < F(1, 10 ** int(prec))):
+                rep.violation(rid, "size_to_qty|step", f"size_to_qty(size={size}, price={pr}, precision={prec}, fee_rate={f}) = {q}: not within one precision step below the exact quotient {float(exact)}")
+    rep.instance(rid, "grid", {"witness_points_evaluated": n})
+    if n < 300:
+        raise AnalysisError(f"C17-R6: only {n} witness evaluations")
 
 
 def check_rounding(repo, rep):
@@ -266,6 +356,7 @@ def run(repo: Repo, rep, tier: str):
     rep.exhaustive = True
     rep.assume("real arithmetic: the cost/risk bounds are discharged as polynomial sign facts on the normal forms; IEEE rounding of the final float division is not modelled")
     rep.guarded(check_sizing, repo, rep)
+    rep.guarded(check_bounds, repo, rep)
     rep.guarded(check_rounding, repo, rep)
     rep.guarded(check_decimal, repo, rep)
     rep.guarded(check_timeframes, repo, rep)
